@@ -4,6 +4,7 @@ import (
 	"fmt"
 	"os"
 	"strings"
+	"syscall"
 	"time"
 
 	"verif/internal/gen"
@@ -11,7 +12,7 @@ import (
 )
 
 func c13(c *h.Ctx) {
-	c.Rule = "in-process real TaskRunner: overrunning command (external sleep, shell busy loop, child ignoring SIGINT, sleep in a subshell, sleep in a pipeline) at every position of 1..3 commands, in before/after, with/without allow_failure, timeouts 100ms..1s; commands that fit (2 s timeout); n commands of 0.4 x timeout each; CLI sample for duration spellings. Oracle: SURVIVED token after the overrunning command must never appear, no later command token, error reported, spawned pid gone; non-trivial = every distinct case"
+	c.Rule = "in-process real TaskRunner: overrunning command (external sleep, shell busy loop, child ignoring SIGINT, sleep in a subshell, sleep in a pipeline) at every position of 1..3 commands, in before/after, with/without allow_failure, timeouts 100ms..1s; commands that fit (2 s timeout); n commands of 0.4 x timeout each; CLI: duration spellings; overrunning command (sleep / child ignoring SIGINT) run directly and as a pipeline stage with a dependant, with/without allow_failure: exit status, trace, and the command's process gone after taskctl exited. Oracle: SURVIVED token after the overrunning command must never appear, no later command token, error reported, spawned pid gone; non-trivial = every distinct case"
 	c.Assumptions = []string{"the overrun margin is >= 20x the timeout, so the SURVIVED token is a safety observation, not a timing one", "harness commands exec their sleeper so no grandchild keeps the output pipe open", "clock-based bound (timeout + 2 s kill grace + 5 s) is secondary and re-confirmed three times before it counts"}
 	runWorkers(c, workerOpts{Mode: "timeout", Shards: 6, Timeout: 25 * time.Minute})
 
@@ -48,6 +49,76 @@ func c13(c *h.Ctx) {
 			c.Violate("cli-timeout-exit/"+s.name, fmt.Sprintf("timeout %v: exit %d", s.v, res.Exit), cas)
 		}
 		c.Nontrivial("cli" + s.name)
+	})
+	// CLI: what the user sees of an overrunning command - run directly and as a pipeline stage with a dependant:
+	// non-zero exit status, nothing after the overrun, and the command's process gone once taskctl has exited
+	type cliCase struct {
+		staged, allow bool
+		shape         string
+	}
+	var cc []cliCase
+	for _, staged := range []bool{false, true} {
+		for _, allow := range []bool{false, true} {
+			for _, shape := range []string{"sleep", "ignore-int"} {
+				cc = append(cc, cliCase{staged, allow, shape})
+			}
+		}
+	}
+	h.Par(len(cc), 8, func(i int) {
+		k := cc[i]
+		d := fmt.Sprintf("%s/proc.%d", dir, i)
+		os.MkdirAll(d, 0o755)
+		trace, pidfile := d+"/trace", d+"/pids"
+		over := fmt.Sprintf("sh -c 'echo $$ >> %s; exec sleep 20'", pidfile)
+		if k.shape == "ignore-int" {
+			over = fmt.Sprintf("sh -c 'trap \"\" INT; echo $$ >> %s; exec sleep 20'", pidfile)
+		}
+		tdef := gen.OM{{K: "command", V: []interface{}{fmt.Sprintf("printf 'START\\n' >> '%s'; %s; printf 'SURVIVED\\n' >> '%s'", trace, over, trace), fmt.Sprintf("printf 'NEXT\\n' >> '%s'", trace)}}, {K: "timeout", V: "300ms"}, {K: "allow_failure", V: k.allow}}
+		cfg := gen.OM{{K: "tasks", V: gen.OM{{K: "t", V: tdef}, {K: "dep", V: gen.OM{{K: "command", V: fmt.Sprintf("printf 'DEPENDANT\\n' >> '%s'", trace)}}}}},
+			{K: "pipelines", V: gen.OM{{K: "p", V: []interface{}{gen.OM{{K: "name", V: "first"}, {K: "task", V: "t"}}, gen.OM{{K: "name", V: "second"}, {K: "task", V: "dep"}, {K: "depends_on", V: []interface{}{"first"}}}}}}}}
+		f := d + "/tasks.yaml"
+		h.WriteFile(f, gen.YAML(cfg))
+		target := "t"
+		if k.staged {
+			target = "p"
+		}
+		res := tc{Dir: d, Timeout: 60 * time.Second, KeepGroup: true}.run(c, "-c", f, "-o", "raw", target)
+		defer syscall.Kill(-res.Pgid, syscall.SIGKILL)
+		c.Eval(1)
+		got := strings.Fields(h.ReadFile(trace))
+		cas := map[string]interface{}{"yaml": gen.YAML(cfg), "target": target, "exit": res.Exit, "trace": got, "took_ms": res.Dur.Milliseconds(), "stderr": tail(stripANSI(string(res.Stderr)), 400)}
+		if crashed, how := res.CrashedNotByStatus(); crashed {
+			c.Violate("cli-crash/"+h.TopFrame(string(res.Stderr)), "taskctl died: "+how, cas)
+			return
+		}
+		if strings.Join(got, " ") != "START" {
+			c.Violate("cli-overrun-trace", fmt.Sprintf("%s (allow_failure=%v, %s): trace %v, the statement requires [START]", target, k.allow, k.shape, got), cas)
+		}
+		if res.Exit == 0 {
+			c.Violate("cli-timeout-not-reported-as-failure", fmt.Sprintf("`taskctl %s` exits 0 although a command of the task overran its timeout (allow_failure=%v, %s)", target, k.allow, k.shape), cas)
+		}
+		for _, ps := range strings.Fields(h.ReadFile(pidfile)) {
+			gone := false
+			for w := 0; w < 50 && !gone; w++ {
+				b, err := os.ReadFile("/proc/" + ps + "/stat")
+				if fs := strings.Fields(string(b)); err != nil || (len(fs) > 2 && fs[2] == "Z") {
+					gone = true
+				} else {
+					time.Sleep(100 * time.Millisecond)
+				}
+			}
+			if !gone {
+				c.Violate("cli-process-alive-after-exit/"+k.shape, fmt.Sprintf("process %s of the overrunning command is still running 5 s after taskctl exited", ps), cas)
+				if pid := 0; true {
+					fmt.Sscan(ps, &pid)
+					if pr, e := os.FindProcess(pid); e == nil && pid > 1 {
+						pr.Kill()
+					}
+				}
+			}
+			c.Count("cli_overrun_processes_checked", 1)
+		}
+		c.Nontrivial(fmt.Sprint("cliproc", k))
 	})
 }
 
